@@ -168,18 +168,22 @@ def dp17_bounds(sch, key, edb, db, reads):
     buckets = sorted({b for seq in reads for b in seq})
     p_prefix = 1.0
     all_prefix = True
+    real_by_bucket = {b: set() for b in buckets}
+    cells_by_bucket = {}
     for (lvl, off) in buckets:
         raw = list.__getitem__(edb.A_dict[lvl], off)
-        cells = [raw[i:i + ecl] for i in range(0, len(raw), ecl)]
-        real = set()
-        for tk in tokens:
-            for pos, e in enumerate(cells):
+        cells_by_bucket[(lvl, off)] = [raw[i:i + ecl] for i in range(0, len(raw), ecl)]
+    for seq, tk in zip(reads, tokens):  # a keyword's entries can only sit in the buckets its own search reads
+        for bkt in set(seq):
+            for pos, e in enumerate(cells_by_bucket[bkt]):
                 try:
                     pt = sch.config.rnd.Decrypt(tk.etag, e)
                 except ValueError:
                     continue
                 if pt[-sch.config.param_lambda:] == b"\x00" * sch.config.param_lambda:
-                    real.add(pos)
+                    real_by_bucket[bkt].add(pos)
+    for bkt in buckets:
+        cells, real = cells_by_bucket[bkt], real_by_bucket[bkt]
         c, r = len(cells), len(real)
         if r:
             p_prefix *= 1.0 / math.comb(c, r)
